@@ -133,7 +133,12 @@ def isar_elements(deps, kinds):
             # earlier enumerator of the SAME enum is avoided: isar values reach the Python module as raw text, where
             # the class body cannot see them - the known finding isar-raw-expression-text's family)
             a_text = xml_escape(const_expr(n, ds, kinds, {})[0]) if ds else str(n)
-            b_text = ("(%s) + 10" % a_text) if ds else str(n + 10)
+            if ds and n % 2 == 0:
+                # every reference sits in a value that STARTS with a number
+                a_text = "0 + " + a_text
+                b_text = "10 + (%s)" % a_text
+            else:
+                b_text = ("(%s) + 10" % a_text) if ds else str(n + 10)
             out[n] = ('<enum name="%s"><enum-member name="%s_A" value="%s"/><enum-member name="%s_B" value="%s"/></enum>'
                       % (nm(n), nm(n), a_text, nm(n), b_text))
         elif k == "typedef":
